@@ -9,6 +9,8 @@ re-measurement before a statistical alarm.
 Bounds are judged against the step size each operation was constructed with (recorded at
 the constructor), groups include atoms outside the cell and straddling its faces, cells
 are fully, partially or not periodic.
+One operation object is also used repeatedly on one atoms object and one group of rows while masses, species and
+neighbours are edited in place; masks are also assigned or edited after construction.
 """
 from __future__ import annotations
 
